@@ -33,7 +33,7 @@ ReadVerdict(fmt, f, o) ==
   ELSE "ok"
 
 \* transformation files: c = [enc (npy|txt|json), cls]; accepted iff cls is a valid SE(3)/Sim(3)
-ValidTransform(cls) == cls \in {"se3", "sim3", "sim3small"}
+ValidTransform(cls) == cls \in {"se3", "sim3", "sim3small", "sim3milli", "sim3kilo"}
 TransformVerdict(c, o) ==
   IF ValidTransform(c.cls) THEN (IF o.out # "ok" THEN "ValidTransformRejected" ELSE IF ~o.same THEN "TransformNotAsInFile" ELSE "ok")
   ELSE IF o.out = "FileInterfaceException" THEN "ok" ELSE IF o.out = "ok" THEN "InvalidTransformAccepted" ELSE "WrongErrorType"
